@@ -123,7 +123,9 @@ C11Clauses(ev) ==
   IN IF ev.indomain THEN
      \* (C11 does not claim that the module loads - that is C03, over its own key styles; an unloadable module simply
      \*  leaves the clauses below without a field table to judge)
-     << <<"C11.injective", ran, ~ran \/ \A p \in pairs : inj(p)>>,
+     << \* "valid" names: whatever else may keep the module from executing, the text must at least be Python syntax
+        <<"C11.names-parse", gen, ~gen \/ ev.parse_exc = "">>,
+        <<"C11.injective", ran, ~ran \/ \A p \in pairs : inj(p)>>,
         <<"C11.recoverable", ran /\ (Pydantic(o) \/ o.meta), ~ran \/ \A p \in pairs : rec(p)>>,
         <<"C11.class-distinct", ran, ~ran \/ Cardinality(ToSet(names)) = Len(names)>>,
         <<"C11.class-vs-import", ran, ~ran \/ ToSet(names) \cap ToSet(ev.mod.imports) = {}>>,
